@@ -654,6 +654,106 @@ theorem C13_restart_at_most_once (registered : List Nat) (resumes : Nat → Bool
             rw [hc] at ih
             exact ih
 
+/-! ## a run that was idle and has been woken
+
+`WorkflowServer` puts the idle-release layer around the persistence layer; the start query skips rows
+whose idle marker is set (they are reloaded by the next `send_event`).  So "no accepted event is lost"
+needs: a run that has accepted an event since it last announced idleness does not carry the marker. -/
+
+theorem C13.rowmark_run_append (m : RowMark) (a b : List RowEv) :
+    RowMark.run m (a ++ b) = RowMark.run (RowMark.run m a) b := by
+  simp [RowMark.run, List.foldl_append]
+
+theorem C13.rowmark_step_keeps (m : RowMark) (e : RowEv) (he : e ≠ .idleAnnounced) (hm : m.idle = false) :
+    (m.step e).idle = false := by
+  cases e with
+  | idleAnnounced => exact absurd rfl he
+  | sendDone => rfl
+  | released => simp [RowMark.step, hm]
+  | processStop => simpa [RowMark.step] using hm
+
+theorem C13.rowmark_busy_keeps (busy : List RowEv) (h : ∀ e ∈ busy, e ≠ .idleAnnounced) :
+    ∀ m : RowMark, m.idle = false → (RowMark.run m busy).idle = false := by
+  induction busy with
+  | nil => intro m hm; simpa [RowMark.run] using hm
+  | cons e es ih =>
+    intro m hm
+    have h1 := C13.rowmark_step_keeps m e (h e (by simp)) hm
+    have h2 := ih (fun e' he' => h e' (by simp [he'])) (m.step e) h1
+    simpa [RowMark.run] using h2
+
+/-- **C13 (a woken run is not marked idle)**: whatever happened to the run before (`pre`: idle
+announcements, releases, reloads, process stops), once a `send_event` for it has returned and the run
+has not announced idleness again since (`busy`: further sends, process stops — the work the event
+started is still going on), the handler row does not carry the idle marker. -/
+theorem C13_woken_run_not_idle (m : RowMark) (pre busy : List RowEv) (h : ∀ e ∈ busy, e ≠ .idleAnnounced) :
+    (RowMark.run m (pre ++ .sendDone :: busy)).idle = false := by
+  rw [C13.rowmark_run_append]
+  have : RowMark.run (RowMark.run m pre) (.sendDone :: busy) = RowMark.run ((RowMark.run m pre).step .sendDone) busy := by
+    simp [RowMark.run]
+  rw [this]
+  exact C13.rowmark_busy_keeps busy h _ rfl
+
+/-- **C13 (a woken run is resumed)**: at a process stop such a run's row (running, registered
+workflow, run not yet active) is selected by the start query — the very next verdict of
+`_on_server_start` for it is `restart` — and what the restart does with it is `restartRun` on its
+persisted ticks, i.e. everything `C13_replay_reproduces_state`, `C13_state_kept` and `C13_finalize` say. -/
+theorem C13_woken_run_resumed (m : RowMark) (pre busy : List RowEv) (h : ∀ e ∈ busy, e ≠ .idleAnnounced)
+    (registered : List Nat) (resumes : Nat → Bool) (active : List Nat) (row : HandlerRow) (hs : List HandlerRow) (r : Nat)
+    (hidle : row.idle = (RowMark.run m (pre ++ .sendDone :: busy)).idle)
+    (hst : row.status = .running) (hwf : registered.contains row.wf = true) (hrun : row.runId = some r)
+    (hact : active.contains r = false) :
+    pickHandlers registered resumes active (row :: hs) =
+      (row.hid, .restart r) :: pickHandlers registered resumes (if resumes r then r :: active else active) hs ∧
+    ∀ (cfg : Cfg) (pol : Policy) (legacy : Option State) (ticks : List Tick) (now0 : Int) (clk : Nat → Int) (nowR : Int)
+      (mkStart : Option Ev) (timeout : Option Nat),
+      restartHandler row.idle cfg pol legacy ticks now0 clk nowR mkStart timeout =
+        restartRun cfg pol legacy ticks now0 clk nowR mkStart timeout := by
+  have hi : row.idle = false := by rw [hidle]; exact C13_woken_run_not_idle m pre busy h
+  constructor
+  · have hwf' : row.wf ∈ registered := by simpa using hwf
+    have hact' : ¬ r ∈ active := by simpa using hact
+    have hq : startQuery registered row = true := by simp [startQuery, hst, hwf', hi]
+    rw [pickHandlers]
+    simp [hq, hrun, hact']
+  · intro cfg pol legacy ticks now0 clk nowR mkStart timeout
+    simp [restartHandler, hi]
+
+/-- **C13 (an idle run waits for its next event)**: a row that carries the marker at a process stop is
+left alone by `_on_server_start` (nothing read, written or started), the run is not in memory — and
+the next `send_event` brings it back and clears the marker, whatever else happened in between. -/
+theorem C13_idle_run_reloaded_by_send (m : RowMark) (hm : m.idle = true) :
+    (m.step .processStop).inMemory = false ∧
+    (∀ (cfg : Cfg) (pol : Policy) (legacy : Option State) (ticks : List Tick) (now0 : Int) (clk : Nat → Int) (nowR : Int)
+      (mkStart : Option Ev) (timeout : Option Nat),
+      restartHandler m.idle cfg pol legacy ticks now0 clk nowR mkStart timeout = .skip) ∧
+    ∀ between : List RowEv, RowMark.run (m.step .processStop) (between ++ [.sendDone]) = { idle := false, inMemory := true } := by
+  refine ⟨by simp [RowMark.step, hm], ?_, ?_⟩
+  · intro cfg pol legacy ticks now0 clk nowR mkStart timeout
+    simp [restartHandler, hm]
+  · intro between
+    rw [C13.rowmark_run_append]
+    simp [RowMark.run, RowMark.step]
+
+/-- what `RowMark` assumes of `idle_release_runtime.py`, re-extracted on every run: the idle
+announcement writes `idle_since` before the event is published; `send_event` clears it on the path
+of a run that is in memory and reloads a released run, both before the tick is handed on; the reload
+clears it after `workflow.run`; and the start query is the one that reads it (`is_idle=False`). -/
+theorem C13_idle_mark_shape :
+    GenReplay.idleAnnouncementMarksRow = true ∧ GenReplay.sendClearsMarkInMemory = true ∧
+    GenReplay.sendReloadsReleasedRun = true ∧ GenReplay.reloadClearsMark = true ∧ GenReplay.startIsIdle = some false := by
+  decide
+
+/-- non-vacuity: idle, woken in memory, busy across a process stop: resumed; idle and not woken: skipped;
+released and woken by a reload: resumed -/
+example :
+    RowMark.run {} [.idleAnnounced, .sendDone, .processStop] = { idle := false, inMemory := true } ∧
+    RowMark.run {} [.idleAnnounced, .processStop] = { idle := true, inMemory := false } ∧
+    RowMark.run {} [.idleAnnounced, .released, .sendDone, .processStop] = { idle := false, inMemory := true } ∧
+    restartHandler (RowMark.run {} [.idleAnnounced]).idle C13.cfg2 C13.pol0 none [] 0 (fun _ => 0) 0 none none = .skip := by
+  refine ⟨by decide, by decide, by decide, ?_⟩
+  simp [restartHandler, RowMark.run, RowMark.step]
+
 /-! ## the source, as re-read on this run -/
 
 def C13.statusStr : Status → String
